@@ -202,7 +202,7 @@ def h_regpoly(inc, query, n, aunit, direct, m):
     vy = [y for y in np.asarray(reg.vertices.y, dtype=object if m.sym else float)]
     m.require('n vertices', len(vx) == n and len(vy) == n)
     exact = abs(round(12 / n * 2) - 12 / n * 2) < 1e-12     # 2 pi / n is a multiple of pi/12
-    tol = 0.0 if (exact or not m.sym) and m.sym else 1e-9
+    tol = 0.0 if (exact and ang is not None and m.sym) else 1e-9   # concrete angles: float trig values
     ca, sa = _cs_const_plus(a0, 0.0)
     c1, s1 = _cs_const_plus(0.0, 2 * math.pi / n)
     def close(a, b):
@@ -340,16 +340,16 @@ def harnesses(tier):
                                P(h_annulus, 'rectangle', inc, qy, au)))
         hs.append((f'in-operator/circle/include={iname}', P(h_in_operator, 'circle', inc)))
         hs.append((f'in-operator/rectangle/include={iname}', P(h_in_operator, 'rectangle', inc)))
-    polyn = [3, 4, 5] if q else [3, 4, 5, 6, 7, 8]
+    polyn = [3, 4, 5] if q else [3, 4, 5, 6]
     for n in polyn:
         for iname, inc in (INCLUDES if n <= 4 else INCLUDES[:1] + INCLUDES[2:3]):
             for qy in (['scalar', 'vec2', 'empty'] if n <= 4 else ['scalar']):
                 hs.append((f'polygon/n={n}/include={iname}/query={qy}', P(h_polygon, inc, qy, n)))
-    for n in ([3, 4] if q else [3, 4, 5, 6, 8, 12]):
+    for n in ([3, 4] if q else [3, 4, 6, 8, 12]):
         for iname, inc in INCLUDES[:1] + INCLUDES[2:3]:
             for au in (['deg'] if q else ['default', 'deg', 'rad']):
                 hs.append((f'regular-polygon/n={n}/include={iname}/query=scalar/angle={au}',
-                           P(h_regpoly, inc, 'scalar', n, au, n == 4)))
+                           P(h_regpoly, inc, 'scalar', n, au, n == 4 and au != 'default')))
     return hs
 
 
@@ -375,7 +375,7 @@ META = {
         'quick': {'polygon_vertices': '3..5', 'regular_polygon_n': [3, 4], 'query_containers': ['scalar', '(2,)', '(0,)'],
                   'include_flags': ['absent', True, False, 1, 0], 'angle_units': ['deg', 'rad'],
                   'continuous_parameters': 'unbounded reals (centre, sizes > 0, angle as a point on the unit circle, query position)'},
-        'thorough': {'polygon_vertices': '3..8', 'regular_polygon_n': [3, 4, 6],
+        'thorough': {'polygon_vertices': '3..6', 'regular_polygon_n': [3, 4, 6, 8, 12],
                      'query_containers': ['scalar', '(2,)', '(1,2)', '(0,)', 'int scalar'],
                      'include_flags': ['absent', True, False, 1, 0],
                      'angle_units': ['default', 'deg', 'rad', 'arcmin', 'arcsec'],
